@@ -1,3 +1,3 @@
 """Sidecar contracts.  MODULES lists every contract module; a contract serves
 the properties named in its `props`."""
-MODULES = ["contracts.c08", "contracts.c20", "contracts.c19", "contracts.c03", "contracts.c04", "contracts.c14", "contracts.c01", "contracts.c16", "contracts.c18", "contracts.c05", "contracts.c07", "contracts.c10", "contracts.c11", "contracts.c12", "contracts.c13", "contracts.c09", "contracts.c15"]
+MODULES = ["contracts.c08", "contracts.c20", "contracts.c19", "contracts.c03", "contracts.c04", "contracts.c14", "contracts.c01", "contracts.c16", "contracts.c18", "contracts.c05", "contracts.c07", "contracts.c10", "contracts.c11", "contracts.c12", "contracts.c13", "contracts.c09", "contracts.c15", "contracts.state"]
